@@ -49,12 +49,14 @@ Print Assumptions C11_rx_touches_only_match_client.
 (* the serving side: a request (first frame, retransmission or further segment), a client's segment-ack or a client's abort
    changes only the server transaction with the sender's address and the PDU's invoke id — created, replaced or removed,
    also by the application's answer given inside the same step.  Every other entry of that server table (`others`), the
-   client table and configuration of that node, and every other node are exactly as before.  ctx_ok (the context a
+   client table and configuration of that node, and every other node are exactly as before.  no_flush: the scripted server
+   applications do not give parked answers of OTHER requests from inside an indication (that would be the application, not the
+   stack, touching other transactions; such applications are exercised by the correspondence and the direct predicate).  ctx_ok (the context a
    transaction reassembles carries the transaction's own invoke id) is an invariant: C11_ctx_ok_* below. *)
 Theorem C11_rx_touches_only_match : forall src dst a w n,
   to_client_side a = false -> (a_type a = 0 \/ a_type a = 4 \/ a_type a = 7) ->
   get_node dst (w_nodes w) = Some n ->
-  (forall t, In t (n_str n) -> ctx_ok t) ->
+  (forall t, In t (n_str n) -> ctx_ok t) -> no_flush (w_reqs w) ->
   node_ok_after (a_invoke a) src dst w (deliver src dst a w).
 Proof. exact deliver_server_only_match. Qed.
 Print Assumptions C11_rx_touches_only_match.
